@@ -141,11 +141,24 @@ def nontrivial(case):
     return True
 
 
+def classify_known(v):
+    return v.get("known_class")
+
+
 def oracle(ctx):
     bad = []
     opened = failed = 0
     for c, outs in zip(ctx.cases, ctx.impl_out):
         for i, (cmd, o) in enumerate(zip(c.cmds, outs)):
+            if o.startswith("(panic "):
+                # byte-level damage: the panic site tells rust-msi from its dependencies
+                site = o[len("(panic "):-1]
+                f = {"kind": "panic", "what": "%s: damaged file makes the library panic at %s (%s)" % (c.name, site, cmd),
+                     "cmds": [x for x in c.cmds[:i + 1] if not x.startswith("(x_mutate_open")] + [cmd], "impl": o}
+                if site.startswith("cfb-") and site.endswith("internal_minialloc.rs"):
+                    f["known_class"] = "cfb_minialloc_panic"
+                bad.append(f)
+                continue
             if o in ("panic", "abort", "timeout") or "panic" in o.split()[:1]:
                 what = {"panic": "panicked", "abort": "aborted (crash, stack overflow or memory exhaustion)", "timeout": "hung"}.get(o, "panicked")
                 cmds = [x if len(x) < 6000 else x[:6000] + " ...)" for x in c.cmds[:i + 1]]
@@ -154,12 +167,12 @@ def oracle(ctx):
             if "(rows)" == cmd and "panic" in o:
                 bad.append({"kind": "panic", "what": "%s: reading the rows of a table panicked" % c.name, "cmds": c.cmds[:i + 1] if len(c.cmds[0]) < 6000 else c.cmds[1:i + 1], "impl": o[:300]})
                 break
-        if c.tags[0] == "struct":
+        if c.tags and c.tags[0] == "struct":
             if outs[0] == "(ok ())":
                 opened += 1
             else:
                 failed += 1
-        if c.tags[0] == "valid" and outs[0] != "(ok ())":
+        if c.tags and c.tags[0] == "valid" and outs[0] != "(ok ())":
             bad.append({"kind": "reference", "what": "the undamaged encoded file does not open", "cmds": c.cmds[:1], "impl": outs[0]})
     ctx.extra_info = {"damaged_files_that_opened": opened, "damaged_files_rejected": failed}
     return bad
